@@ -633,7 +633,11 @@ class StoreRun:
         real = norm(repr(files)) + norm(repr(cache))
         model = norm(repr(self.model.canon(lambda t: "T%d" % tr[t])))
         held = tuple(sorted(self.mem))
-        return (real, model, held, getattr(self, "spell", 0))
+        from .core import object_state
+
+        # (every scalar attribute of the backend objects, known to this check or not: histories are merged only when these agree too)
+        hidden = object_state(self.be, roots=(getattr(self, "alt_root", None), self.root))
+        return (real, model, held, getattr(self, "spell", 0), hidden)
 
 
 # ---------------------------------------------------------------------------------------------
